@@ -54,6 +54,7 @@ func runC02(c *Ctx) {
 	}
 	// R2
 	checkConflictRemoval(c, "C02-R2")
+	checkSpenderListDecodeRunsToExhaustion(c, "C02-R2")
 	// R3
 	rb := wtxFn(c, "C02-R3", "rollback")
 	if rb != nil {
